@@ -563,6 +563,30 @@ def run_chain(case, ctx):
                 viol.append({'what': 'C06 transformer %r gives %r; left-to-right composition of %r gives %r' %
                                      (src.replace('\n', '\\n'), got, ch, want), 'detail': {'chain': ch}})
             classes.append(('chain', len(ch), tuple(s[0] for s in ch)))
+        # the same expression as ONE object applied to several texts by one instruction (three copies of the text in a
+        # directory): the structure read once must give the same value at every application
+        if not viol:
+            pre = ['dir dd = {', '  file 1.txt = -contents-of -rel-act t.txt', '  file 2.txt = -contents-of -rel-act t.txt',
+                   '  file 3.txt = -contents-of -rel-act t.txt', '}']
+            multi = []
+            for i, (src, want, ch) in enumerate(exp):
+                pre.append('file w%d = %s' % (i, ('<<EOF\n' + want + 'EOF') if want.endswith('\n')
+                                              else '-contents-of -rel-act c%d' % i))
+                multi.append('dir-contents dd : every file : contents -transformed-by %s\n equals -contents-of -rel-act w%d'
+                             % (src, i))
+            r2, t2 = _run(ses, d, setup + pre, multi)
+            ctx.count('c06.chain_multi_application_runs')
+            if r2.timed_out:
+                inconc.append('watchdog')
+            elif not (r2.rc == 0 and r2.out == 'PASS\n'):
+                for i, (src, want, ch) in enumerate(exp):
+                    r3, t3 = _run(ses, d, setup + pre, [multi[i]])
+                    if not (r3.rc == 0 and r3.out == 'PASS\n'):
+                        viol.append({'what': 'C06 transformer %r applied to three copies of the text by one instruction '
+                                             '(every file : contents -transformed-by ..): %s; a single application gives '
+                                             'the value of its structure %r' % (src.replace('\n', '\\n'),
+                                                                               r3.out.strip() or r3.rc, want),
+                                     'detail': {'chain': ch, 'stderr': r3.err[:600]}})
     ses.clean_tmp()
     ses.drop(d)
     res = {'classes': classes, 'viol': viol, 'inconclusive': inconc, 'evaluations': len(exp)}
